@@ -280,6 +280,10 @@ def main(argv):
         hbad = [c for c in hcases if c.get('viol')]
         rep.coverage.update({'handshake_cases': len(direct), 'handshake_engine_cases': len(eng),
                              'handshake_requests_answered': sum(c['done'] for c in hcases),
+                             'handshake_requests_with_every_page_compared': sum(c.get('checked', 0) for c in hcases),
+                             'handshake_requests_with_2_or_more_requesting_gpus': sum(c.get('multigroup', 0) for c in hcases),
+                             'handshake_groups_with_2_or_more_pages': sum(c.get('multipage', 0) for c in hcases),
+                             'handshake_pages_migrated': sum(c.get('pages', 0) for c in hcases),
                              'handshake_model_mismatches': len(hmism), 'handshake_monitor_failures': len(hbad)})
         if hbad:
             c = dict(hbad[0])
